@@ -137,6 +137,8 @@ class SenderStream(Monitor):
                 w.violate(self.P + ".direction", f"{k} dir={h[0]}", "")
             if h[5][1] != c.seqw:
                 w.violate(self.P + ".seq_width", f"{k} {h[5][1]} want={c.seqw}", "")
+            if int(pdu.pdu_header.pdu_conf.file_flag) != 0 and self.size < (1 << 32):
+                w.violate(self.P + ".large_file_flag", f"{k} carries the large-file flag for a file of {self.size} bytes", "")
             try:
                 again = bytes(pdu.pack())
             except Exception as e:  # noqa: BLE001
